@@ -416,6 +416,15 @@ fn ntt120_vec_znx_big_normalize_inter<R, A, BE>(
         nfc_zero(carry);
     }
 
+    // Shifts that move the whole of `a` more than one limb below the last limb of `res`: the limb
+    // positions in between hold no input, the carry is reduced through each of them.
+    for _ in 0..(if a_out_range != 0 && a_start == 0 { (-limbs_offset - res_size as i64).max(0) as usize } else { 0 }) {
+        carry.iter_mut().for_each(|c| {
+            let digit: i128 = get_digit_i128(base2k, *c);
+            *c = get_carry_i128(base2k, *c, digit);
+        });
+    }
+
     // Zero bottom res limbs that will not receive a value.
     for j in res_start..res_size {
         res.at_mut(res_col, j).fill(0);
@@ -644,6 +653,15 @@ fn ntt120_vec_znx_big_normalize_inter_assign<O, R, A, BE>(
     }
     if a_out_range == 0 {
         nfc_zero(carry);
+    }
+
+    // Shifts that move the whole of `a` more than one limb below the last limb of `res`: the limb
+    // positions in between hold no input, the carry is reduced through each of them.
+    for _ in 0..(if a_out_range != 0 && a_start == 0 { (-limbs_offset - res_size as i64).max(0) as usize } else { 0 }) {
+        carry.iter_mut().for_each(|c| {
+            let digit: i128 = get_digit_i128(base2k, *c);
+            *c = get_carry_i128(base2k, *c, digit);
+        });
     }
 
     let mid_range: usize = a_start.saturating_sub(a_end);
